@@ -8,7 +8,7 @@ SPEC = {
         "rule": "scripted: each case = one script with 0..n Errors() subscriptions before and during processing, work completions with nil or distinct error values (pointer identity is what the subscriber-side comparison uses), and subscriber receives issued one at a time as non-blocking receives at quiescent moments; run on the real queue and replayed in Coq on Model/WQ.v with all internal interleavings; observed = the value each receive returns (which error, nothing, nil, foreign), started work functions, WorkItems(). distinct = by (W, L, stimuli); non-trivial = some work function returned an error.",
     }, {
         "kind": "wqstress", "name": "stress", "prop": "C14",
-        "rule": "free-running: each case = one queue under real scheduling (built with -race) with 0..3 subscribers registered before the work, error results for every n-th item, half of the runs calling Errors() again while work is running; evaluated = every early subscriber received every error exactly once as the same value, no nil, late subscriber no duplicates, exactly-once/max-concurrency monitors of C04/C09, race reports; non-trivial = more items than W+L+1.",
+        "rule": "free-running: each case = one queue under real scheduling (built with -race) with 0..3 subscribers registered before the work, error results for every n-th item, half of the runs calling Errors() again while work is running, half of the runs registering 2-8 subscribers CONCURRENTLY (goroutines released together, before any work is enqueued); evaluated = every early subscriber received every error exactly once as the same value, no nil, late subscriber no duplicates, exactly-once/max-concurrency monitors of C04/C09, race reports; non-trivial = more items than W+L+1.",
     }],
     "trusted": ["channels, select, sync.Map, atomics, context are modelled by contract (one step each)",
                 "quiescence detector; Go race detector for the subscriber-slice lock (F14): race freedom is tested, not proved"],
